@@ -17,6 +17,8 @@ Member type grammar (lists):
   ["ct", Name]              member whose type is a named callback typedef
   ["pa", T]                 pointer used as array (<array c:type="T*"> without fixed-size)
   ["gl", which]             GList* / GSList* / GHashTable* / GError* member
+  ["za", T]                 zero-terminated C array, a pointer (<array c:type="T*"> e.g. gchar**)
+  ["ga", which]             GArray* / GPtrArray* / GByteArray* member (<array name="GLib.Array" ...>)
   ["d", Name]               member whose type is a "pointer"/"disguised" record (typedef struct _X *Name;)
   ["al", Name]              member whose type is an <alias> of a basic type
   ["flex", T]               C99 flexible array member  T m[];          (unknown size)
@@ -51,6 +53,8 @@ BASIC = {
 }
 GL = {'list': ('GLib.List', 'GList*'), 'slist': ('GLib.SList', 'GSList*'), 'hash': ('GLib.HashTable', 'GHashTable*'),
       'error': ('GLib.Error', 'GError*')}
+GA = {'array': ('GLib.Array', 'GArray*', 'gint'), 'ptrarray': ('GLib.PtrArray', 'GPtrArray*', 'gpointer'),
+      'bytearray': ('GLib.ByteArray', 'GByteArray*', 'guint8')}
 COMPOUND = ('S', 'U', 'O', 'B')
 
 C_PRELUDE = '''#include <stddef.h>
@@ -110,7 +114,7 @@ def type_sa(t, env, c_view=True):
     k = t[0]
     if k == 'b':
         return BASIC[t[1]][1], BASIC[t[1]][2]
-    if k in ('p', 'cb', 'ct', 'pa', 'gl', 'd'):
+    if k in ('p', 'cb', 'ct', 'pa', 'gl', 'd', 'za', 'ga'):
         return 8, 8
     if k == 'al':
         return BASIC[env[t[1]][2]][1], BASIC[env[t[1]][2]][2]
@@ -177,7 +181,7 @@ def first_unknown(d, env):
 def has_kind(t, kinds):
     if t[0] in kinds:
         return True
-    if t[0] in ('a', 'flex', 'pa'):
+    if t[0] in ('a', 'flex', 'pa', 'za'):
         return has_kind(t[1], kinds)
     if t[0] == 'anon':
         return any(has_kind(x, kinds) for x in t[2])
@@ -220,10 +224,10 @@ def c_member(t, name, pfx, local):
         return '%s[%d]' % (c_member(t[1], name, pfx, local), t[2])
     if k == 'cb':
         return 'void (*%s) (int x)' % name
-    if k == 'pa':
+    if k in ('pa', 'za'):
         return c_member(t[1], '*' + name, pfx, local)
-    if k == 'gl':
-        return 'void *%s' % name      # GList* etc.: an object pointer
+    if k in ('gl', 'ga'):
+        return 'void *%s' % name      # GList* / GArray* etc.: an object pointer
     if k == 'flex':
         return '%s[]' % c_member(t[1], name, pfx, local)
     if k == 'nik':
@@ -359,6 +363,12 @@ def gir_type(t, pfx, local):
     if k == 'pa':
         el = gir_type(t[1], pfx, local)
         return G.Arr(el, zero_terminated=False, ctype=getattr(el, 'ctype', 'gpointer') + '*')
+    if k == 'za':
+        el = gir_type(t[1], pfx, local)
+        return G.Arr(el, zero_terminated=True, ctype=getattr(el, 'ctype', 'gpointer').replace('const ', '') + '*')
+    if k == 'ga':
+        kind, ct, el = GA[t[1]]
+        return G.Arr(G.B(el), kind=kind, ctype=ct)
     if k == 'gl':
         if t[1] == 'error':
             return G.Err()
